@@ -14,8 +14,8 @@ OMP_NUM_THREADS=4 PYTHONPATH="$WT" timeout 1500 /venv/bin/python -m pytest -q -p
 TL=$(tail -1 /tmp/seed_tests_$$.txt | tr -d '"')
 RES=""
 for P in $PROPS; do
-  OUT=$(cd /verif && VERIF_REPO="$WT" timeout 1700 ./check "$P" --tier quick 2>/dev/null | grep -E "^VIOLATION|^KNOWN" | head -3 | tr '\n' ';' | tr -d '"'); RC=$?
-  (cd /verif && VERIF_REPO="$WT" timeout 1700 ./check "$P" --tier quick >/dev/null 2>&1); RC=$?
+  (cd /verif && VERIF_EVIDENCE_DIR=/tmp/verif_evidence_seeded VERIF_REPO="$WT" timeout 1700 ./check "$P" --tier quick >/tmp/seed_check_$$.txt 2>/dev/null); RC=$?
+  OUT=$(grep -E "^VIOLATION|^KNOWN" /tmp/seed_check_$$.txt | head -3 | tr '\n' ';' | tr -d '"')
   RES="$RES{\"prop\":\"$P\",\"exit\":$RC,\"lines\":\"$OUT\"},"
 done
 git -C /repo worktree remove --force "$WT"
